@@ -113,3 +113,21 @@ class Vector(Point):
 
     def __repr__(self):
         return f"Vector {self.description}"
+
+
+class AxisVector(Vector):
+    """Direction of a rotation axis or of a normal: a free vector. It turns together with the entity
+    it belongs to but is not displaced by translations, by scaling
+    or by the origin of a rotation or of a mirror plane."""
+
+    def translate(self, displacement):
+        return self
+
+    def scale(self, ratio, origin: Optional[PointType] = None):
+        return self
+
+    def rotate(self, angle, axis, origin: Optional[PointType] = None):
+        return super().rotate(angle, axis, f.vector(0, 0, 0))
+
+    def mirror(self, normal: VectorType, origin: Optional[PointType] = None):
+        return super().mirror(normal, f.vector(0, 0, 0))
